@@ -281,10 +281,18 @@ def check_1d(chk, drv, sp, rng, nrand):
     cmax = float(np.max(np.abs(c)))
     base = {'space': sp.desc(), 'coeffs_hex': hxs(c)}
     factor = 32.0 * (sp.deg + 2)
+    held = []        # arrays returned by the array entry point, kept by the caller while the spline is evaluated again
     for der in (0, 1):
         case0 = dict(base, der=der)
         ys_s = guarded(chk, 'Spline1D.eval(scalar)', case0, lambda: [s.eval(float(x), der) for x in xs])
         ys_a = guarded(chk, 'Spline1D.eval(array)', case0, lambda: s.eval(xs.copy(), der))
+        if ys_a is not None:
+            held.append((der, ys_a, np.array(ys_a, copy=True)))
+        if der == 1:
+            for hd, arr, snap in held:
+                if not np.array_equal(np.asarray(arr), snap, equal_nan=True):
+                    chk.fail('C07:result-aliased', 'the array returned by Spline1D.eval(points, der=%d) changed when the spline was evaluated '
+                             'again: the result is not the caller\'s own array' % hd, dict(base, der=hd, xs_hex=hxs(xs)))
         # the in-place entry point must fill the array it is given, also when that is a strided view (a column of a table)
         out = np.full(len(xs), np.nan) if der == 0 else np.full((len(xs), 3), np.nan)[:, 1]
         ok_v = guarded(chk, 'Spline1D.eval_vector', case0, lambda: (s.eval_vector(xs.copy(), out, der), True)[1])
@@ -591,6 +599,7 @@ def check_2d(chk, drv, s1, s2, rng, npts):
     nz = min(len(X), len(Y))
     Xz, Yz = X[:nz].copy(), Y[::-1][:nz].copy()
     vec_kernel = cu.cu_eval_spline_2d_vector if s1.cu else nu.nu_eval_spline_2d_vector
+    held2 = []       # tensor-grid results kept by the caller across later evaluations (of this and of another spline on the same grid)
     for d1 in (0, 1):
         for d2 in (0, 1):
             case0 = dict(base, der1=d1, der2=d2)
@@ -610,6 +619,8 @@ def check_2d(chk, drv, s1, s2, rng, npts):
             # the three public entry points + the raw zip kernel
             Zs = guarded(chk, 'Spline2D.eval(scalar)', case0, lambda: np.array([[S.eval(float(x), float(y), d1, d2) for y in Y] for x in X]))
             Zc = guarded(chk, 'Spline2D.eval(cross)', case0, lambda: S.eval(X.copy(), Y.copy(), d1, d2))
+            if Zc is not None:
+                held2.append((d1, d2, Zc, np.array(Zc, copy=True)))
             Zv = np.full((len(X), len(Y)), np.nan) if d1 == d2 else np.full((len(X), len(Y), 2), np.nan)[:, :, 1]   # strided view
             okv = guarded(chk, 'Spline2D.eval_vector', case0, lambda: (S.eval_vector(X.copy(), Y.copy(), Zv, d1, d2), True)[1])
             zz = np.full(nz, np.nan)
@@ -671,6 +682,15 @@ def check_2d(chk, drv, s1, s2, rng, npts):
                     cmp_oracle(chk, 'C07:' + vec_kernel.__name__, 'point-list 2-D kernel differs from the tensor-product B-spline', case, float(zz[k]), Rz[k], osc)
                     cmp_model(chk, vec_kernel.__name__, case, float(zz[k]), mz['zs'][k], mz['scales'][k], factor, extra(Xz[k], Yz[k]))
             chk.count('2-D %s (der1,der2)=(%d,%d)' % ('cubic-uniform' if s1.cu else 'general', d1, d2), len(X) * len(Y))
+    S2 = Spline2D(s1.b, s2.b)                      # another spline on the same spaces, evaluated on the same grid
+    S2.coeffs[:, :] = -0.5 * C
+    guarded(chk, 'Spline2D.eval(cross)', base, lambda: S2.eval(X.copy(), Y.copy()))
+    for hd1, hd2, arr, snap in held2:
+        if not np.array_equal(np.asarray(arr), snap, equal_nan=True):
+            chk.fail('C07:result-aliased', 'the array returned by Spline2D.eval(x1, x2, %d, %d) changed when a spline was evaluated on a grid of '
+                     'the same shape afterwards: the result is not the caller\'s own array' % (hd1, hd2),
+                     dict(base, der1=hd1, der2=hd2, xs_hex=hxs(X), ys_hex=hxs(Y)))
+            break
     # periodic seam in 2-D (value and the slope across the seam)
     for dim, sp in ((0, s1), (1, s2)):
         if not sp.periodic:
@@ -801,7 +821,9 @@ def run(chk):
                 'random coefficients (periodic wrap); all (der1,der2); a case = (entry point family, space, derivative, point)')
     # Props/C07Gen.lean is about the span search REGENERATED from spline_eval_funcs.py
     common.run_translator(chk, 'translate_pure.py', '--only', 'findspan')
-    chk.proof_side(build=not getattr(chk, 'no_build', False), extra_props=('C07Gen',))
+    common.run_translator(chk, 'translate_pure.py', '--only', 'basisfuns')
+    common.run_translator(chk, 'translate_pure.py', '--only', 'eval1d')
+    chk.proof_side(build=not getattr(chk, 'no_build', False), extra_props=('C07Gen', 'C07Gen2'))
     drv = common.LeanDriver('C07.lean')
     rng = chk.rng
     try:
